@@ -365,6 +365,7 @@ def evaluate(ctx, cases, name="cases"):
     defs = "Definition cases : list case := [\n%s\n].\n" % ";\n".join(case_term(c) for c in cases)
     evs = [("mm_" + e, "bad_indices agree_%s cases 0" % e) for e in EVALS]
     evs += [("v_agree", "bad_indices ok_agree cases 0"), ("v_spec", "bad_indices ok_spec cases 0"),
+            ("v_range", "bad_indices ok_range cases 0"),
             ("in_spec", "bad_indices (fun k => negb (spec_class k)) cases 0")]
     res = coq.run_cases(ctx, name, PRE, defs, evs)
     if res is None:
@@ -598,13 +599,18 @@ def verdict1(ctx, cases, res):
                       "filter semantics (select) for options %s" % " ".join(cli_opts(cases[i]["cfg"])),
                       {"line": 1, "check": "ok_spec", "case": case_json(cases[i]),
                        "outputs": {k: v for k, v in cases[i]["out"].items()}}, True)
+    for i in res["v_range"][:3]:
+        ctx.violation("C07 violated: -r does not select exactly the records inside the time range: %s"
+                      % " ".join(cli_opts(cases[i]["cfg"])),
+                      {"line": 1, "check": "ok_range", "case": case_json(cases[i]),
+                       "outputs": {k: v for k, v in cases[i]["out"].items()}}, True)
     for i in res["v_agree"][:3]:
         ctx.violation("C07 violated: the analysis commands disagree on the visible calls for options %s"
                       % " ".join(cli_opts(cases[i]["cfg"])),
                       {"line": 1, "check": "ok_agree", "case": case_json(cases[i]),
                        "outputs": {k: v for k, v in cases[i]["out"].items()}}, True)
     mm = {e: res["mm_" + e] for e in EVALS if res["mm_" + e]}
-    if mm and not res["v_spec"] and not res["v_agree"]:
+    if mm and not res["v_spec"] and not res["v_agree"] and not res["v_range"]:
         e, idx = sorted(mm.items())[0]
         ctx.violation("model and implementation disagree for `%s` on %d case(s) (%s); the property checker accepts "
                       "every explored output" % (e, len(idx), ", ".join("%s:%d" % (k, len(v)) for k, v in sorted(mm.items()))),
